@@ -178,6 +178,8 @@ def run(ctx, ck):
     n_polar = 0
     row_obs = {}
     for f in sorted(writers, key=lambda x: x.qual):
+        if f.name.startswith('_'):
+            continue        # (private helpers are looked through from the writers that call them)
         try:
             paths = SymExec(ctx, f, depth=4, bind_loops=True, no_expand=wq).run()
         except AnalysisError as e_:
